@@ -17,7 +17,8 @@ RULE = (
     "xcube: missing cells exactly, values to rtol 1e-12 in the dyadic mode (facts k/8, weights m/1024, all sums "
     "exact) and to 1e-9 x grand total in the rough-float mode. Non-trivial = (a weight or a multi-column fact) and "
     "at least one cell whose rows are partly valid and partly missing (the two policies differ there). "
-    "Distinct by case content."
+    "Distinct by case content. One case in 25 is LARGE (300 / 1 100 / 2 500 rows, 2..5 or hundreds of categories, up "
+    "to 10 fact columns; stored as a recipe of three integers)."
 )
 ASSUMPTIONS = [
     "weights are >= 0, non-zero weights >= 2^-10 (ffunc_mean documents |sum w| < 1e-8 as zero)",
@@ -32,6 +33,17 @@ AGGS = ["count", "valid_count", "sum", "mean"]
 def cases(draw, tier, aggs=AGGS, max_nd=None, big=True):
     if max_nd is None:
         max_nd = 3 if tier == "quick" else 4
+    if big and draw(st.integers(0, 24)) == 0:
+        # hundreds / thousands of rows, many categories, up to ten fact columns (stored as a recipe)
+        spec = draw(Q.large_specs(aggs))
+        spec["ignore"] = draw(st.booleans())
+        rmas = [r for r in Q.RMAS if not (r == "plain" and spec["agg"] == "valid_count" and not spec["ignore"])]
+        spec["rma"] = draw(st.sampled_from(rmas))
+        spec["via"] = draw(st.sampled_from(["method", "func_tracing_off"]))
+        spec["xdtypes"] = ["int64"] * len(spec["dims"])
+        spec["xexplicit"] = draw(st.booleans())
+        spec["args"] = draw(st.sampled_from(["fresh", "shared", "shared_xcube_first"]))
+        return spec
     if big and draw(st.integers(0, 9)) == 0:
         # a boundary extent (255 .. 65537): the array cube then addresses its cells with uint16 / uint32 strides
         spec = draw(Q.cube_specs(max_nd=2, min_nd=1, max_n=20, big_ok=True, tails=((), (), (2,))))
@@ -91,6 +103,9 @@ def fix0d(gv, gm, exp_v):
 def check(case, rec):
     import numpy
 
+    if case.get("recipe"):
+        rec.note("large recipe case (N=%d)" % case["N"])
+    case = Q.expand(case)
     dense = Q.dense_dims(case)
     N = case["N"]
     nd = len(dense)
